@@ -1733,6 +1733,7 @@ RunResult run_world(const Script& script)
         world.in_eof = true;
         world.hold_search = false;
         int64_t guard = 0;
+        const int64_t nodes_before_teardown = world.nodes_total;
         for (;;)
         {
             bool any = false;
@@ -1746,13 +1747,29 @@ RunResult run_world(const Script& script)
                 if (!drive(&t, 100000)) { hang = true; break; }
             }
             if (!any || hang) break;
-            if (++guard > 100000) { world.infra("teardown did not converge"); hang = true; break; }
+            // a search that does not unwind although its stop flag is set (the harness sets it at every node visit
+            // here) cannot be cleaned up: give the process up, the result recorded so far stands
+            if (++guard > 100000 || world.nodes_total - nodes_before_teardown > 3000000)
+            {
+                world.counters["teardown_abandoned"]++;
+                hang = true;
+                break;
+            }
         }
         if (hang)
         {
-            res.infra_error = true;
-            res.infra_detail = "hang in teardown";
+            // keep what the run established (violations, counters); only a run without any finding is an infrastructure error
+            if (res.violations.empty())
+            {
+                res.infra_error = true;
+                res.infra_detail = "hang in teardown";
+            }
             res.counters["hang"] = 1;
+            res.trace_hash = world.trace_hash;
+            res.sched_sig = world.sched_sig;
+            res.nodes = world.nodes_total;
+            res.sim_ns = world.clock_ns;
+            for (auto& kv : world.counters) res.counters[kv.first] += kv.second;
             W = nullptr;
             return res;
         }
